@@ -6,6 +6,7 @@ import Cascette.Model.Salsa20
 import Cascette.Model.Jenkins
 import Cascette.Model.Arc4
 import Cascette.Model.Simd
+import Cascette.Spec.Md5
 open Cascette Drv
 
 def w32? (s : String) : Option W32 := s.toNat?.map (BitVec.ofNat 32)
@@ -62,6 +63,11 @@ def handle : List String → String
     | some m =>
       let (h64, h32) := Model.Jenkins.jenkins96 m
       hexFixed 16 h64.toNat ++ " " ++ hexFixed 8 h32.toNat
+    | _ => "bad-op"
+  | ["md5", m] =>
+    -- ContentKey::from_data / EncodingKey::from_data: the model IS RFC 1321 (Spec/Md5)
+    match parseHex m with
+    | some m => hexOf (Spec.Md5.md5 m)
     | _ => "bad-op"
   | ["memcmp", mask, a, b] =>
     match mask.toNat?, parseHexNat a, parseHexNat b with
